@@ -22,6 +22,15 @@ def orderIsoB (a b : NSeq) : Bool :=
 def occurrences (π σ : NSeq) : List (List Nat) :=
   (combos σ.length π.length).filter fun c => orderIsoB π (pick σ c)
 
+/-- the colours of the index tuple `c` match: `cσ[c[k]] = cπ[k]` for every slot `k < n`
+    (`patt_colours[i] == self_colours[k]` of perm.py for every chosen `i = c[k]`) -/
+def colourMatch (n : Nat) (cπ cσ : List Nat) (c : List Nat) : Bool :=
+  (List.range n).all fun k => cσ.getD (c.getD k 0) 0 == cπ.getD k 0
+
+/-- specification of the coloured listing: the occurrences whose colours match -/
+def occurrencesC (π σ : NSeq) (cπ cσ : List Nat) : List (List Nat) :=
+  (occurrences π σ).filter (colourMatch π.length cπ cσ)
+
 end Spec
 
 namespace Model
